@@ -43,6 +43,7 @@ type Env struct {
 	DialErr  func(n int, addr string) error         // non-nil result makes the n-th dial fail
 	DialWait func(ctx context.Context, n int) error // may block (simulated) before the dial completes
 	Dials    []string
+	DialTasks []string // the task each dial was made on
 	CtxDials int
 
 	Oblig int // obligations the property's oracle evaluated in this run
@@ -67,6 +68,11 @@ func (e *Env) Notef(format string, args ...interface{}) {
 func (e *Env) dial(ctx context.Context, network, address string, ctxAware bool) (net.Conn, error) {
 	n := len(e.Dials) + 1
 	e.Dials = append(e.Dials, address)
+	who := ""
+	if t := e.S.Self(); t != nil {
+		who = t.ID
+	}
+	e.DialTasks = append(e.DialTasks, who)
 	if ctxAware {
 		e.CtxDials++
 	}
